@@ -54,10 +54,12 @@ class Program(object):
         self._callers = None
         self.renamed = {}
         self.inlined_helpers = []
+        self.inlined_procs = []
         if normalize:
             from . import normalize as nz
             self.renamed = nz.resolve_renames(self)
             self.inlined_helpers = nz.inline_pure_helpers(self)
+            self.inlined_procs = nz.inline_new_helpers(self)
 
     # ---------------------------------------------------------- macros
     def macro(self, name, header='src/lib/zck_private.h'):
